@@ -165,6 +165,7 @@ func checkRequirements(who string, got []resolve.RequirementVersion, want []reso
 // invStats are the features a registry's invariant run exercised.
 type invStats struct {
 	parents, bundles, depth2, depth3, aliases, scopedAliases, atInName, aliasedDirs, notFoundBefore int
+	plainVersions, withRegistries, heldRechecked                                                    int
 }
 
 // checkInvariants runs clauses (a) and (b) of the property on a fresh client:
@@ -305,11 +306,57 @@ func checkInvariants(c resolve.Client, reg *Registry, order [][2]string) ([]find
 			}
 		}
 	}
+	// Answers about plain registry versions are kept and read again at the end:
+	// what the client said about one version must not change because it was
+	// later asked about another one.
+	type heldVersion struct {
+		what string
+		v    []resolve.Version
+		was  string
+	}
+	var held []heldVersion
+	plain := func(k [2]string, v *Ver) {
+		vk := npmVK(k[0], k[1], resolve.Concrete)
+		who := fmt.Sprintf("%s@%s", k[0], k[1])
+		gv, err := c.Version(ctx, vk)
+		if err != nil {
+			add("plain:Version:error", "%s: Version fails: %v", who, err)
+			return
+		}
+		st.plainVersions++
+		wantRegs := strings.Join(registriesFor(k[0], k[1]), "|")
+		if got, _ := gv.GetAttr(version.Registries); got != wantRegs {
+			add("plain:Version:registries", "%s: Version reports registries %q, the service says %q", who, got, wantRegs)
+		}
+		if wantRegs != "" {
+			st.withRegistries++
+		}
+		tags, _ := gv.GetAttr(version.Tags)
+		if (tags == "latest") != v.Default {
+			add("plain:Version:latest", "%s: Version reports tags %q, the service says default=%v", who, tags, v.Default)
+		}
+		held = append(held, heldVersion{"Version(" + who + ")", []resolve.Version{gv}, versStr([]resolve.Version{gv})})
+		if vs, err := c.Versions(ctx, vk.PackageKey); err == nil {
+			held = append(held, heldVersion{"Versions(" + k[0] + ")", vs, versStr(vs)})
+		}
+		if ms, err := c.MatchingVersions(ctx, npmVK(k[0], "*", resolve.Requirement)); err == nil {
+			held = append(held, heldVersion{"MatchingVersions(" + k[0] + "@*)", ms, versStr(ms)})
+		}
+	}
+	recheckHeld := func() {
+		for _, h := range held {
+			st.heldRechecked++
+			if now := versStr(h.v); now != h.was {
+				add("plain:earlier-answer-changed", "%s answered %s when asked and reads %s after the later calls", h.what, h.was, now)
+			}
+		}
+	}
 	for _, k := range order {
 		v := reg.ver(k[0], k[1])
 		if v == nil {
 			continue
 		}
+		plain(k, v)
 		// Before the holder's Requirements the bundled names are documented to
 		// be inaccessible; observed, not demanded.
 		if len(v.Bundled) > 0 {
@@ -334,6 +381,7 @@ func checkInvariants(c resolve.Client, reg *Registry, order [][2]string) ([]find
 			tree(k[0], v, false)
 		}
 	}
+	recheckHeld()
 	return out, st
 }
 
